@@ -138,9 +138,12 @@ func (x *Exec) dischargeSeed(q *Query, tier string, seed int) *Result {
 		sa = []string{fmt.Sprintf("smt.random_seed=%d", seed), fmt.Sprintf("sat.random_seed=%d", seed)}
 	}
 	res := &Result{Q: q}
-	to := 10 * time.Second
+	to := 20 * time.Second
 	if tier == "thorough" {
 		to = 60 * time.Second
+	}
+	if q.Meta["knownopen"] != "" {
+		to = 3 * time.Second
 	}
 	ms := fmt.Sprintf("%d", int(to/time.Millisecond))
 	if q.Smoke {
@@ -255,7 +258,7 @@ func (x *Exec) dischargeAll(qs []*Query, tier string, workers int) []*Result {
 	// before they count.  Only `unsat` from the second attempt changes the outcome.
 	var again []int
 	for i, r := range res {
-		if r != nil && !r.Q.Smoke && (r.Answer == "timeout" || r.Answer == "unknown") {
+		if r != nil && !r.Q.Smoke && r.Q.Meta["knownopen"] == "" && (r.Answer == "timeout" || r.Answer == "unknown") {
 			again = append(again, i)
 		}
 	}
